@@ -16,6 +16,10 @@
     c01m_outflow_single_closed    the same with the closed forms of `c04_block_balance_closed` (`c4b_betShare`,
                                   `c4b_partShare`)
 
+    c01m_outflow_queued           several markets queued: for every duplicate-free list `Q` containing the markets of
+                                  both queues, the decrease of each custody balance is the SUM over `Q` of the decreases
+                                  of the ledgers, and (no halt) equals what the account pays in the block
+
   NOT proved: the general per-market equation when several markets are settled in one block (ledger decrease of `m` =
   payments for the bets of `m` and the participations of `m`'s book ALONE); it needs the `c4b_BetAcc` / `c4b_PartAcc` fold
   of Lemmas/BlockPay.lean carried with a per-market indicator. Also not proved: that the records settled / paid by a
@@ -153,6 +157,70 @@ theorem c01m_outflow_single_closed (p : Params) (bal : List (Nat × Int)) (h t :
   · exact c1o_neg_of_diff l1 b1
   · exact c1o_neg_of_diff l2 b2
   · exact c1o_neg_of_diff l3 b3
+
+/-- C01.o  SEVERAL MARKETS QUEUED: THE SUM. Let `Q` be a duplicate-free list of markets containing every market that
+    waits in a settlement queue of the reachable state `s` (e.g. the members of `s.mqueue ++ s.obqueue`). Then the
+    end-block (settling or halting) lowers the pool by exactly the sum over `Q` of the decreases of the ledgers
+    `c1m_owed · m`, likewise the two fee collectors; when it does not halt, this sum is exactly what the account pays in
+    the block (the terms of `c04_block_balance`). The equation is for the SUM over the queued markets, not market by
+    market. -/
+theorem c01m_outflow_queued (p : Params) (bal : List (Nat × Int)) (h t : Nat) (ops : List Op)
+    (h0 : getBal bal ACC_POOL = 0 ∧ getBal bal ACC_BETFEE = 0 ∧ getBal bal ACC_HOUSEFEE = 0)
+    (hwf : ∀ o ∈ ops, o.userSigned') :
+    let s := run (initState p bal h t) ops
+    let s' := (step s .endBlock).1
+    ∀ Q : List Nat, Q.Nodup → (∀ m', m' ∉ Q → m' ∉ s.mqueue ∧ m' ∉ s.obqueue) →
+      (getBal s.bal ACC_POOL - getBal s'.bal ACC_POOL = sumBy (fun m => c1m_owed s m - c1m_owed s' m) Q ∧
+       getBal s.bal ACC_BETFEE - getBal s'.bal ACC_BETFEE =
+         sumBy (fun m => c1m_owedBetFee s m - c1m_owedBetFee s' m) Q ∧
+       getBal s.bal ACC_HOUSEFEE - getBal s'.bal ACC_HOUSEFEE =
+         sumBy (fun m => c1m_owedHouseFee s m - c1m_owedHouseFee s' m) Q) ∧
+      ((step s .endBlock).2 ≠ .halt →
+        sumBy (fun m => c1m_owed s m - c1m_owed s' m) Q =
+          -(sumBy (c4b_betTerm ACC_POOL s.markets (c4b_openAt s.bets)) s'.bets
+            + sumBy (c4b_bookTerm ACC_POOL s.markets (c4b_unpaidAt s.books)) s'.books) ∧
+        sumBy (fun m => c1m_owedBetFee s m - c1m_owedBetFee s' m) Q =
+          -(sumBy (c4b_betTerm ACC_BETFEE s.markets (c4b_openAt s.bets)) s'.bets
+            + sumBy (c4b_bookTerm ACC_BETFEE s.markets (c4b_unpaidAt s.books)) s'.books) ∧
+        sumBy (fun m => c1m_owedHouseFee s m - c1m_owedHouseFee s' m) Q =
+          -(sumBy (c4b_betTerm ACC_HOUSEFEE s.markets (c4b_openAt s.bets)) s'.bets
+            + sumBy (c4b_bookTerm ACC_HOUSEFEE s.markets (c4b_unpaidAt s.books)) s'.books)) := by
+  intro s s' Q hQ honly
+  have hrun : run (initState p bal h t) (ops ++ [.endBlock]) = s' := c1o_run_snoc _ ops .endBlock
+  have c1 : getBal s.bal ACC_POOL = sumBy (c1m_owed s) (c1m_markets s) ∧
+      getBal s.bal ACC_BETFEE = sumBy (c1m_owedBetFee s) (c1m_markets s) ∧
+      getBal s.bal ACC_HOUSEFEE = sumBy (c1m_owedHouseFee s) (c1m_markets s) :=
+    c01m_custody_by_market p bal h t ops h0 hwf
+  have c2 : getBal s'.bal ACC_POOL = sumBy (c1m_owed s') (c1m_markets s') ∧
+      getBal s'.bal ACC_BETFEE = sumBy (c1m_owedBetFee s') (c1m_markets s') ∧
+      getBal s'.bal ACC_HOUSEFEE = sumBy (c1m_owedHouseFee s') (c1m_markets s') := by
+    have := c01m_custody_by_market p bal h t (ops ++ [.endBlock]) h0 (c1o_wf_snoc hwf)
+    simp only [hrun] at this
+    exact this
+  have n1 : (c1m_markets s).Nodup ∧
+      ∀ x, x ∉ c1m_markets s → c1m_owed s x = 0 ∧ c1m_owedBetFee s x = 0 ∧ c1m_owedHouseFee s x = 0 :=
+    c01m_no_book_nothing_owed p bal h t ops
+  have n2 : (c1m_markets s').Nodup ∧
+      ∀ x, x ∉ c1m_markets s' → c1m_owed s' x = 0 ∧ c1m_owedBetFee s' x = 0 ∧ c1m_owedHouseFee s' x = 0 := by
+    have := c01m_no_book_nothing_owed p bal h t (ops ++ [.endBlock])
+    simp only [hrun] at this
+    exact this
+  have fr : ∀ x, x ∉ Q → c1m_owed s' x = c1m_owed s x ∧ c1m_owedBetFee s' x = c1m_owedBetFee s x ∧
+      c1m_owedHouseFee s' x = c1m_owedHouseFee s x :=
+    fun x hx => c01m_endblock_frame_reachable p bal h t ops x (honly x hx).1 (honly x hx).2
+  have d1 := c1o_regroup_diff_list (c1m_markets s) (c1m_markets s') Q (c1m_owed s) (c1m_owed s') n1.1 n2.1 hQ
+    (fun x hx => (n1.2 x hx).1) (fun x hx => (n2.2 x hx).1) (fun x hx => (fr x hx).1.symm)
+  have d2 := c1o_regroup_diff_list (c1m_markets s) (c1m_markets s') Q (c1m_owedBetFee s) (c1m_owedBetFee s') n1.1 n2.1
+    hQ (fun x hx => (n1.2 x hx).2.1) (fun x hx => (n2.2 x hx).2.1) (fun x hx => (fr x hx).2.1.symm)
+  have d3 := c1o_regroup_diff_list (c1m_markets s) (c1m_markets s') Q (c1m_owedHouseFee s) (c1m_owedHouseFee s') n1.1
+    n2.1 hQ (fun x hx => (n1.2 x hx).2.2) (fun x hx => (n2.2 x hx).2.2) (fun x hx => (fr x hx).2.2.symm)
+  rw [← c1.1, ← c2.1] at d1
+  rw [← c1.2.1, ← c2.2.1] at d2
+  rw [← c1.2.2, ← c2.2.2] at d3
+  refine ⟨⟨d1, d2, d3⟩, ?_⟩
+  intro hnh
+  have b := c04_block_balance p bal h t ops h0 hwf hnh
+  exact ⟨c1o_neg_of_diff d1 (b ACC_POOL), c1o_neg_of_diff d2 (b ACC_BETFEE), c1o_neg_of_diff d3 (b ACC_HOUSEFEE)⟩
 
 /-- non-vacuity, on the two-market history of C01MarketFrame.lean: market 1 is declared and waits for settlement,
     market 2 is in neither queue, so only market 1 is queued; the end-block does not halt; the ledger of market 1 falls
